@@ -8,7 +8,8 @@
 //   {"op":"symprog","threads":[[op,..],..],"seed":s,"reps":r}
 //        K real threads, each interpreting a straight-line symbol program (ops I R S L E Q of interner_drv.ml) against the
 //        real interner (S/L through Type::TypeAlias(sym).into_id() / to_type()), started together with random skews,
-//        `reps` times.  Answer {"runs":[[ "obs obs ..", .. per thread ], .. per repetition]}.
+//        `reps` times.  "mode":"atomic" (default) copies a resolved string while the lock is held (the model's atomic resolve);
+//        "mode":"as_str" uses Symbol::as_str().to_string() as the compiler does (the reference escapes the lock: finding F24).  Answer {"runs":[[ "obs obs ..", .. per thread ], .. per repetition]}.
 //   {"op":"jobs","jobs":[{"src":..,"path":..,"sched":..,"n":..},..],"seed":s,"reps":r}
 //        every job observed ALONE first (determinism_run's `observe`: Mir, bytecode listing, WASM bytes, skeleton, io, VM and
 //        WASM outputs, diagnostics), then all jobs on K = len(jobs) concurrent threads, `reps` times.
@@ -101,7 +102,17 @@ fn eval_sv(sv: &str, regs: &[String]) -> String {
 }
 
 /// interpret one straight-line symbol program against the real storage
-fn run_symprog(ops: &[String], rng: &mut Rng) -> String {
+/// `sym.as_str().to_string()` as the compiler does it (reference escapes the lock: finding F24), or a copy made while
+/// the lock is held (the atomic `resolve` of the model)
+fn resolve_str(sym: Symbol, atomic: bool) -> String {
+    if atomic {
+        with_session_globals(|g| g.symbol_interner.resolve(sym.0).map(|s| s.to_string())).unwrap_or_else(|| "<invalid>".into())
+    } else {
+        sym.as_str().to_string()
+    }
+}
+
+fn run_symprog(ops: &[String], rng: &mut Rng, atomic: bool) -> String {
     let mut syms: Vec<Symbol> = vec![];
     let mut keys: Vec<TypeNodeId> = vec![];
     let mut regs: Vec<String> = vec![];
@@ -114,7 +125,7 @@ fn run_symprog(ops: &[String], rng: &mut Rng) -> String {
         match k {
             "I" => syms.push(eval_sv(a, &regs).to_symbol()),
             "R" => match syms.get(a.parse::<usize>().unwrap_or(usize::MAX)) {
-                Some(s) => regs.push(s.as_str().to_string()),
+                Some(s) => regs.push(resolve_str(*s, atomic)),
                 None => {
                     outs.push("p".into());
                     break;
@@ -123,7 +134,7 @@ fn run_symprog(ops: &[String], rng: &mut Rng) -> String {
             "S" => keys.push(Type::TypeAlias(eval_sv(a, &regs).to_symbol()).into_id()),
             "L" => match keys.get(a.parse::<usize>().unwrap_or(usize::MAX)) {
                 Some(id) => match id.to_type() {
-                    Type::TypeAlias(s) => regs.push(s.as_str().to_string()),
+                    Type::TypeAlias(s) => regs.push(resolve_str(s, atomic)),
                     other => {
                         outs.push(format!("?{other:?}"));
                         break;
@@ -177,6 +188,7 @@ fn do_symprog(case: &Value) -> Value {
         .collect();
     let seed = case["seed"].as_u64().unwrap_or(0);
     let reps = case["reps"].as_u64().unwrap_or(1);
+    let atomic = case["mode"].as_str().unwrap_or("atomic") == "atomic";
     let mut runs = vec![];
     for rep in 0..reps {
         let bar = Arc::new(Barrier::new(threads.len()));
@@ -190,13 +202,55 @@ fn do_symprog(case: &Value) -> Value {
                     let mut rng = Rng(seed ^ (rep << 20) ^ (i as u64) << 40);
                     bar.wait();
                     skew(&mut rng);
-                    guarded(|| run_symprog(&ops, &mut rng)).unwrap_or_else(|m| format!("PANIC {m}"))
+                    guarded(|| run_symprog(&ops, &mut rng, atomic)).unwrap_or_else(|m| format!("PANIC {m}"))
                 })
             })
             .collect();
         runs.push(hs.into_iter().map(|h| h.join().unwrap_or_else(|_| "JOIN-PANIC".into())).collect::<Vec<_>>());
     }
     json!({"runs": runs})
+}
+
+/// Symbol::as_str (a safe public function) hands out a `&str` that points into the interner's single growing buffer and
+/// outlives the lock.  Thread A keeps such a reference while thread B interns fresh strings (what a concurrent compilation
+/// does); when the buffer has been reallocated, A looks at its reference again.  Reported, not asserted (finding F24).
+fn do_asstr(case: &Value) -> Value {
+    let tag = case["seed"].as_u64().unwrap_or(0);
+    let probe = format!("c19_probe_{tag}_{}", "p".repeat(40));
+    let sym = probe.to_symbol();
+    let held: &str = sym.as_str(); // safe code: the signature ties the reference to `sym` (a Copy value on this stack frame), not to the lock
+    let before = held.to_string();
+    let p0 = held.as_ptr() as usize;
+    let fill = case["fill"].as_u64().unwrap_or(200000);
+    let h = std::thread::spawn(move || {
+        // thread B: a "compilation" that interns new identifiers and allocates
+        let mut junk: Vec<Vec<u8>> = vec![];
+        let mut moved_at = None;
+        for i in 0..fill {
+            format!("c19_fill_{tag}_{i}_zzzzzzzzzzzzzzzz").to_symbol();
+            if i % 64 == 0 {
+                if sym.as_str().as_ptr() as usize != p0 && moved_at.is_none() {
+                    moved_at = Some(i);
+                }
+                if moved_at.is_some() {
+                    junk.push(vec![0xAAu8; 1 << (6 + (i / 64) % 12)]);
+                    if junk.len() > 4000 {
+                        break;
+                    }
+                }
+            }
+        }
+        std::hint::black_box(&junk);
+        moved_at
+    });
+    let moved_at = h.join().unwrap_or(None);
+    let p1 = sym.as_str().as_ptr() as usize;
+    let now_fresh = sym.as_str().to_string();
+    // A reads the reference it was given earlier
+    let after: Vec<u8> = held.as_bytes().to_vec();
+    json!({"moved": p0 != p1, "moved_at": moved_at, "fresh_resolve_ok": now_fresh == before,
+           "held_reference_intact": after == before.as_bytes(),
+           "held_now": String::from_utf8_lossy(&after[..after.len().min(48)]).to_string(), "expected": before[..48.min(before.len())].to_string()})
 }
 
 fn do_jobs(case: &Value) -> Value {
@@ -244,6 +298,7 @@ fn main() {
             "seq" => do_seq(&case),
             "symprog" => do_symprog(&case),
             "jobs" => do_jobs(&case),
+            "asstr" => do_asstr(&case),
             _ => json!({"err": "bad op"}),
         };
         res["id"] = case["id"].clone();
